@@ -253,7 +253,7 @@ def e2e_case(rng, cid):
     pp = rng.randint(0, 1)
     max_flows = rng.choice([0, 1, 2, 3])
     nb = rng.choice([1, 2, 3])
-    ops = [["setup", wp, responses, requests, pp, max_flows, nb]]
+    ops = [["setup", wp, responses, requests, pp, max_flows, nb, 30, rng.randint(0, 1)]]
     count = {}
     flips = rng.random() < 0.3
     for _ in range(rng.randint(5, 14)):
@@ -293,10 +293,14 @@ def extra_stage(tier, rng, work):
     # counts if it fails again (the deterministic twin of the timer scenarios is op `fire` in-process)
     suspects = [c for c in cases if outs.get(c.id) is None or outs[c.id]["viol"] or outs[c.id]["panic"] is not None]
     retried = len(suspects)
-    for c in suspects:
-        o2, p2 = vlib.run_harness("c19e", [c], os.path.join(work, "e2e_retry"), "release", timeout=300, shards=1)
-        if c.id in o2 and not o2[c.id]["viol"] and o2[c.id]["panic"] is None:
-            outs[c.id] = o2[c.id]
+    os.environ["C19E_RT_MS"] = "20000"      # the second run waits five times longer for every expected delivery
+    try:
+        for c in suspects:
+            o2, p2 = vlib.run_harness("c19e", [c], os.path.join(work, "e2e_retry"), "release", timeout=600, shards=1)
+            if c.id in o2 and not o2[c.id]["viol"] and o2[c.id]["panic"] is None:
+                outs[c.id] = o2[c.id]
+    finally:
+        del os.environ["C19E_RT_MS"]
     viols, failures = [], list(problems)
     delivered = 0
     for c in cases:
